@@ -113,6 +113,10 @@ def lean_build(pid=None):
     check falls back to interpreting its own driver (`lean --run Mains/<pid>.lean`).
     Returns (ok, log, seconds).  A no-op build takes ~0.5 s."""
     t0 = time.time()
+    # regenerate the translated tables (lean/PyGam/Gen/Tables.lean) from /repo's current source
+    trc, tout, terr = _run([sys.executable, os.path.join(VERIF, 'tools', 'translate.py')], cwd=VERIF, timeout=300)
+    if trc != 0:
+        return False, 'translator failed:\n' + (tout + terr)[-3000:], time.time() - t0
     targets = ['PyGam.Props.%s' % pid, 'PyGam.Drv.%s' % pid] if pid else ['PyGam']
     rc, out, err = _run(['lake', 'build'] + targets, cwd=LEAN_DIR, timeout=3000)
     log = (out + err)[-4000:]
